@@ -279,6 +279,9 @@ func clausesFromTexts(m map[int][]string) map[int][]Clause {
 func (g *Global) runUnitOpts(u *Unit, timeout int, workers chan struct{}, ro runOpts) *unitResult {
 	key := unitKey(u.Pkg, u.Func)
 	fn := g.fnByKey[key]
+	if u.FnKey != "" {
+		fn = g.fnByKey[u.FnKey]
+	}
 	res := &unitResult{Unit: u, Fn: fn}
 	if fn == nil {
 		res.Missing = true
